@@ -763,6 +763,7 @@ bool QXmppStunMessage::decode(const QByteArray &buffer, const QByteArray &key, Q
 
             // from here onwards, only FINGERPRINT is allowed
             after_integrity = true;
+            m_attributes << MessageIntegrity;
 
         } else if (a_type == Fingerprint) {
 
@@ -813,6 +814,15 @@ bool QXmppStunMessage::decode(const QByteArray &buffer, const QByteArray &key, Q
         done += 4 + a_length + pad_length;
     }
     return true;
+}
+
+///
+/// Returns true if the decoded message carried a MESSAGE-INTEGRITY attribute
+/// (which decode() verified if it was given a key).
+///
+bool QXmppStunMessage::hasMessageIntegrity() const
+{
+    return m_attributes.contains(MessageIntegrity);
 }
 
 ///
@@ -2174,6 +2184,14 @@ void QXmppIceComponent::handleDatagram(const QByteArray &buffer, const QHostAddr
     // STUN checks
     if (stunTransaction) {
         stunTransaction->readStun(message);
+        return;
+    }
+
+    // connectivity checks are authenticated with the short-term credentials
+    // (RFC 5245 7.1.2.2, 7.2.1.1): decode() has verified MESSAGE-INTEGRITY if
+    // it is there, a request or response without it must not be acted upon
+    if (message.messageClass() != QXmppStunMessage::Indication && !message.hasMessageIntegrity()) {
+        warning(u"Ignoring STUN packet without message integrity"_s);
         return;
     }
 
